@@ -153,7 +153,7 @@ def run_history(root, srv, part, rng):
             part.nontrivial.add("lims=%s at_limit=%d norun=%d after=%d lives=%s" % (
                 ",".join(lims), min(st["spawns_at_limit"], 9), min(st["norun_spawns"], 9), min(st["runs_after_limit"], 3), meta["lives"]))
         for k, d in fails:
-            part.violation(k, {"input": sc.text(), "detail": d, "meta": meta,
+            part.violation(k, {"input": sc.text(), "detail": d, "meta": meta, "incs": sched.incs_to_json(incs), "t_end": t_end,
                                "summary": "%s (history: %d tasks over %ds, lives %s)" % (d, meta["ntasks"], meta["span"], meta["lives"])})
         if not fails and len(part.samples) < 2 and st["spawns_at_limit"] and st["runs_after_limit"]:
             part.sample({"tasks": meta["ntasks"], "limits": lims, "spawns_at_limit": st["spawns_at_limit"],
@@ -200,7 +200,22 @@ def main(tier):
 
 
 def replay(path):
+    """re-run the recorded history on the current tree and judge it again"""
     w = json.load(open(path))
-    print(w.get("input", "")[:3000])
-    print(w.get("detail"))
-    return 1
+    root = build_or_die()
+    print("recorded:", w.get("key"), "|", w.get("detail") or w.get("summary"))
+    events, out, err, rc = sched.run_script(root, w["input"])
+    if events is None or rc != 0 or not any(e[0] == "END" for e in events):
+        print("now: the daemon harness dies (rc %s): %s" % (rc, err[-400:]))
+        return 1
+    if "incs" not in w:
+        return 0 if w.get("key", "").startswith("daemon-crash") else 1
+    incs = sched.incs_from_json(w["incs"])
+    fails = []
+    sched.check_maxsimul(events, incs, lambda k, d: fails.append((k, d)))
+    sched.check_schedule(events, incs, w["t_end"], lambda k, d: fails.append(("schedule/" + k, d)))
+    for k, d in fails[:10]:
+        print("now:", k, d)
+    if not fails:
+        print("now: the MAX-SIMUL rules hold on this history")
+    return 1 if fails else 0
